@@ -130,7 +130,7 @@ func c06bRun(r *mc.Report, sc *c06bScenario, c *mc.Ctx) (outcome string) {
 				}
 			})
 		}
-		if sc.Observes > 0 {
+		if sc.Observes > 0 && freeRuns == 0 { // free-running, a scan and a radius read are not one step: nothing to judge
 			s.spawn("OBS", func() {
 				for i := 0; i < sc.Observes; i++ {
 					s.Gate("observe")
@@ -227,6 +227,15 @@ func runC06b(r *mc.Report, e *Env, task int) {
 		d := &mc.DFS{Bound: bound, Shard: task % c06bShards, Of: c06bShards, ShardDepth: 1, Deadline: e.Deadline}
 		var out string
 		d.Body = func(c *mc.Ctx) { out = c06bRun(r, sc, c) }
+		if freeRuns > 0 { // race-detector pass: no exploration, the bodies run freely
+			for i := 0; i < freeRuns; i++ {
+				ctx := mc.Replay(nil, d.Body)
+				_ = ctx
+				r.Exec("free|" + sc.Name + "|" + out)
+			}
+			r.Count("free_running_executions", int64(freeRuns))
+			continue
+		}
 		d.After = func(c *mc.Ctx) {
 			if c.Diverged != "" {
 				r.EngineError("schedule replay diverged in " + sc.Name + ": " + c.Diverged)
